@@ -8,11 +8,12 @@ import PoetryVerif.Protocol
 import PoetryVerif.Drv.VC
 import PoetryVerif.Drv.Generic
 import PoetryVerif.Drv.Marker
+import PoetryVerif.Drv.Conc
 
 open Poetry Poetry.Proto
 
 def handlers : List (String → List String → Option String) :=
-  [Poetry.Drv.handleVC, Poetry.Drv.handleGeneric, Poetry.Drv.handleMarker]
+  [Poetry.Drv.handleVC, Poetry.Drv.handleGeneric, Poetry.Drv.handleMarker, Poetry.Drv.handleConc]
 
 def dispatch (op : String) (args : List String) : List (String → List String → Option String) → String
   | [] => "bad-op"
